@@ -40,6 +40,7 @@ func genC17Dispatch(rng *hx.Rng, w *hx.Writer, maxEv int) {
 	var wire []string
 	returned := map[int]string{}
 	var retOrder []int
+	var judged []string
 	alive := true
 	nextR := 10
 	nEv := 3 + rng.Intn(maxEv)
@@ -137,6 +138,11 @@ func genC17Dispatch(rng *hx.Rng, w *hx.Writer, maxEv int) {
 					for _, r := range order {
 						if reqs[r].nonce == n && !reqs[r].done {
 							wait(r, 100*time.Millisecond)
+							// the judge's own expectation: a pending request whose reply has arrived returns that reply
+							// (its caller starts waiting only now - after the reply)
+							if got, want := returned[r], hx.L(hx.Zi(0), hx.Zi(m)); got != want {
+								judged = append(judged, fmt.Sprintf("request %d was pending on a live connection when the reply with its nonce (content %d) arrived, and its call returned %s instead of that reply", r, m, got))
+							}
 						}
 					}
 				}
@@ -217,6 +223,9 @@ func genC17Dispatch(rng *hx.Rng, w *hx.Writer, maxEv int) {
 			oracle = hx.Fail("no-return", fmt.Sprintf("request %d did not return although it was answered, cancelled or its connection ended", r))
 		}
 	}
+	if oracle == "ok" && len(judged) > 0 {
+		oracle = hx.Fail("wrong-or-late-return", judged[0])
+	}
 	tags := []string{"dispatcher", fmt.Sprintf("events:%d", len(evs)), fmt.Sprintf("returned:%d", len(rets))}
 	if len(rets) > 1 {
 		tags = append(tags, "nt")
@@ -267,6 +276,9 @@ func subC17System(arg string) string {
 				go func(m p2p.P2PMessage) {
 					time.Sleep(delay)
 					rep := &vss.Signature{RequestId: []byte("re:" + tag + "@" + id)}
+					if tag == "" {
+						rep = &vss.Signature{} // every field at its default: an empty payload
+					}
 					if strings.HasSuffix(tag, "7") {
 						rep.Content = bigReply // a reply that reaches the requester in many reads
 					}
@@ -396,6 +408,21 @@ func subC17System(arg string) string {
 		if rng.Intn(4) == 0 {
 			time.Sleep(time.Duration(rng.Intn(3)) * time.Millisecond)
 		}
+	}
+	if fault == "none" && dropPct == 0 && cancelPct == 0 {
+		// a request and a reply whose every field is at its default (they encode to no bytes at all)
+		wg.Add(1)
+		go func() {
+			defer wg.Done()
+			ctx, cancel := context.WithTimeout(context.Background(), 3*time.Second)
+			defer cancel()
+			r, err := sa.Request(ctx, []byte("peer0"), &vss.Signature{})
+			if err != nil {
+				note(fmt.Sprintf("a request whose message has every field at its default, answered likewise, returned the error %v", err))
+			} else if s, ok := r.Msg.Message.(*vss.Signature); !ok || len(s.RequestId) != 0 {
+				note("the empty request's call returned another request's reply")
+			}
+		}()
 	}
 	done := make(chan struct{})
 	go func() { wg.Wait(); close(done) }()
